@@ -27,7 +27,9 @@ RULE = ("every (rows, cols, #data variables 1..4 (and data=None), #extra coordin
         "(1e-10 relative, 100x inside the boundary); one-fault malformed inputs (non-meshgrid easting or northing, swapped or transposed "
         "meshgrids, mixed 1-D/2-D, shape mismatches of northing / extra / data, name-count mismatches, None names); grid_to_table on "
         "Datasets, named and unnamed DataArrays and Dataset members built directly with xarray with the coordinates declared in every "
-        "order (all permutations up to 4 coordinates), grids stored as (easting, northing), and Datasets / DataArrays whose later variables "
+        "order (all permutations up to 4 coordinates; for named / unnamed DataArrays and Dataset members additionally a systematic sweep: "
+        "index coordinates declared in dims order and reversed x extra coordinates declared before / between / after them, on every "
+        "non-square shape), grids stored as (easting, northing), and Datasets / DataArrays whose later variables "
         "and / or non-index coordinates are stored in the opposite dimension order to the first variable (the input class of finding F6); "
         "Datasets assembled coordinates-first (make_xarray_grid(data=None) then item assignment, DataArray.to_dataset(), "
         "xr.Dataset(coords=...) then assign) whose Dataset-level dimension order is the reverse of their variables' with 1..3 2-D extra "
@@ -487,7 +489,6 @@ def case_round_coords_first(vd, a, kind, stream_key):
         g = call_make(vd, b)
         for nm, arr in zip(names, data):
             g[nm] = (tuple(dims), arr)
-        assert tuple(g.dims) != tuple(dims) or len(g.dims) < 2
         return vd.grid_to_table(g)
     res = run(go)
     if res[0] == "ok":
@@ -731,8 +732,9 @@ def generate(tier, seed, mixed=True):
                 if k % 4 == 2 and how == "xr-coords":
                     tr.add(("extra", rnd.randrange(nx)))
                 g, recipe = coords_first_grid(vd, rnd, nn, ne, nd, nx, DIMS[1 + k % (len(DIMS) - 1)], how, transposed=tr)
-                assert tuple(g.dims) != tuple(g[list(g.data_vars)[0]].dims)
-                cases.append(case_table(vd, g, "table-coords-first" + ("-mixed" if tr else ""), "table-coords-first", recipe))
+                rev = tuple(g.dims) != tuple(g[list(g.data_vars)[0]].dims)    # observed, not assumed
+                cases.append(case_table(vd, g, "table-coords-first" + ("" if rev else "-dimsorder") + ("-mixed" if tr else ""),
+                                        "table-coords-first", recipe))
         for nd in (1, 3):
             for nx in (1, 2):
                 k += 1
@@ -759,6 +761,31 @@ def generate(tier, seed, mixed=True):
                 tr = {"T"} if mode in ("named", "unnamed") and tcount % 5 == 0 else ()
                 g, recipe = direct_grid(rnd, nn, ne, nd, nx, dims, perm, mode, transposed=tr, as_int=(tcount % 11 == 0))
                 cases.append(case_table(vd, g, "table-" + mode + ("-T" if tr else ""), "table", recipe))
+
+    # 4b. DataArray inputs (named, unnamed, member of a Dataset) with the index coordinates declared in dims order and
+    #     reversed, extra coordinates declared before / between / after them, on non-square (and a few square) grids
+    da_shapes = [s for s in shapes if s[0] != s[1]] + [s for s in shapes if s[0] == s[1] and s[0] > 1][:2]
+    if not quick:
+        da_shapes += [s for s in big[::5] if s[0] != s[1]]
+    k = 0
+    for (nn, ne) in da_shapes:
+        for mode in ("named", "unnamed", "member"):
+            for first in ("d0", "d1"):
+                for nx, place in ((0, "none"), (1, "before"), (1, "after"), (2, "between"), (2, "before"), (2, "after")):
+                    k += 1
+                    if quick and (k + nn) % 4:
+                        continue
+                    idx = [0, 1] if first == "d0" else [1, 0]
+                    ex = list(range(2, 2 + nx))
+                    if place == "before":
+                        perm = ex + idx
+                    elif place == "between":
+                        perm = [idx[0], ex[0], idx[1], ex[1]] if k % 2 else [ex[0], idx[0], ex[1], idx[1]]
+                    else:
+                        perm = idx + ex
+                    nd = rnd.randint(1, 3) if mode == "member" else 1
+                    g, recipe = direct_grid(rnd, nn, ne, nd, nx, DIMS[1 + k % (len(DIMS) - 1)], perm, mode)
+                    cases.append(case_table(vd, g, "table-da-%s-%sfirst" % (mode, first), "table-da-decl", recipe))
 
     # 5. meshgrid conversions
     for it in range(90 if quick else 1000):
